@@ -33,19 +33,17 @@ enum kOpIndex : uint32_t {
 
 [[nodiscard]]
 static ASMJIT_INLINE uint32_t op_count_from_emit_args(const Operand_& o0, const Operand_& o1, const Operand_& o2, const Operand_* op_ext) noexcept {
+  // The count is the index of the last operand that is not none plus one. Operands must never be dropped only because
+  // there is a gap in front of them (like [reg, reg, none, none, reg]) - a gap makes the instruction invalid, which is
+  // for the validator and the assembler to decide, and that's only possible if they see all the operands.
   uint32_t op_count = 0;
 
-  if (op_ext[kOp3].is_none()) {
-    if (!o0.is_none()) op_count = 1;
-    if (!o1.is_none()) op_count = 2;
-    if (!o2.is_none()) op_count = 3;
-  }
-  else {
-    op_count = 4;
-    if (!op_ext[kOp4].is_none()) {
-      op_count = 5 + uint32_t(!op_ext[kOp5].is_none());
-    }
-  }
+  if (!o0.is_none()) op_count = 1;
+  if (!o1.is_none()) op_count = 2;
+  if (!o2.is_none()) op_count = 3;
+  if (!op_ext[kOp3].is_none()) op_count = 4;
+  if (!op_ext[kOp4].is_none()) op_count = 5;
+  if (!op_ext[kOp5].is_none()) op_count = 6;
 
   return op_count;
 }
